@@ -32,7 +32,28 @@ ASSUMPTIONS = [
     "R3 class shapes",
 ]
 
-UNSUPPORTED = ["len", "object", "complex", "bean", "generator"]
+UNSUPPORTED = ["len", "object", "complex", "bean", "generator", "weird-eq", "duck-eq"]
+
+
+class WeirdEq(object):
+    """An unsupported value whose comparison has no truth value (numpy-like)"""
+
+    def __eq__(self, other):
+        raise ValueError("the truth value of this comparison is ambiguous")
+
+    __hash__ = None
+
+
+class DuckEq(object):
+    """An unsupported value with a duck-typed __eq__"""
+
+    def __init__(self):
+        self.q = 1
+
+    def __eq__(self, other):
+        return self.q == other.q
+
+    __hash__ = None
 HANDLED = ["H", "date", "datetime", "tuple", "str", "bool", "set"]
 
 
@@ -161,7 +182,8 @@ class C20Builder(G.Builder):
         if k == "datetime":
             return datetime.datetime(2021, 2, vs[1], 3, 4, 5)
         if k == "unsupported":
-            return {"len": len, "object": object(), "complex": 1j, "bean": Plain(), "generator": (x for x in ())}[vs[1]]
+            return {"len": len, "object": object(), "complex": 1j, "bean": Plain(), "generator": (x for x in ()),
+                    "weird-eq": WeirdEq(), "duck-eq": DuckEq()}[vs[1]]
         if k == "bean":
             obj = G.Builder.build(self, vs[:3])
             extra = vs[3]
